@@ -443,7 +443,7 @@ var baseResponses = []string{
 	"* 3 EXPUNGE\r\n",
 	"* LIST (\\HasNoChildren \\Sent) \"/\" \"Sent Items\"\r\n",
 	"* LIST (\\Noselect) NIL INBOX\r\n",
-	"* LIST () \"/\" {5}\r\nDra&t\r\n",
+	"* LIST () \"/\" {6}\r\nDra&-t\r\n",
 	"* LIST (\\Subscribed) \"/\" \"foo\" (\"CHILDINFO\" (\"SUBSCRIBED\"))\r\n",
 	"* LIST () \"/\" \"new\" (\"OLDNAME\" (\"old\"))\r\n",
 	"* LIST () \"/\" \"R&AOk-sum&AOk-\"\r\n",
@@ -460,7 +460,7 @@ var baseResponses = []string{
 	"* 2 FETCH (BODYSTRUCTURE (\"MESSAGE\" \"RFC822\" NIL NIL NIL \"7BIT\" 342 (NIL \"s\" NIL NIL NIL NIL NIL NIL NIL NIL) (\"TEXT\" \"PLAIN\" NIL NIL NIL \"7BIT\" 10 1) 9 NIL NIL NIL NIL))\r\n",
 	"* 2 FETCH (BODYSTRUCTURE ((\"TEXT\" \"PLAIN\" NIL NIL NIL \"7BIT\" -1 1)((\"IMAGE\" \"PNG\" (\"NAME\" \"x.png\") \"<id>\" \"d\" \"BASE64\" 100 \"md5\" (\"ATTACHMENT\" NIL) NIL \"loc\") \"RELATED\") \"MIXED\"))\r\n",
 	"* 1 FETCH (BODY[] {11}\r\nhello world)\r\n",
-	"* 1 FETCH (UID 7 BODY[HEADER.FIELDS (FROM TO)] {14}\r\nFrom: a\r\n\r\n\r\n\r\n FLAGS (\\Seen))\r\n",
+	"* 1 FETCH (UID 7 BODY[HEADER.FIELDS (FROM TO)] {11}\r\nFrom: a\r\n\r\n FLAGS (\\Seen))\r\n",
 	"* 1 FETCH (BODY[1.2.TEXT]<0> \"abc\")\r\n",
 	"* 1 FETCH (BODY[HEADER.FIELDS.NOT (\"X\" {1}\r\nY)] NIL)\r\n",
 	"* 1 FETCH (BODY[] NIL)\r\n",
@@ -629,7 +629,7 @@ func growthFamilies() []growth {
 		g("fetch-flags-list", "flag-list", false, func(n int) string { return "* 1 FETCH (FLAGS (" + strings.TrimSuffix(rep("kw ", n), " ") + "))\r\n" }),
 		g("fetch-atts", "msg-att", false, func(n int) string { return "* 1 FETCH (" + strings.TrimSuffix(rep("UID 1 ", n), " ") + ")\r\n" }),
 		g("fetch-responses", "fetch", false, func(n int) string { return rep("* 1 FETCH (UID 1)\r\n", n) }),
-		g("fetch-section-parts", "section", false, func(n int) string { return "* 1 FETCH (BODY[" + strings.TrimSuffix(rep("1.", n), ".") + "] NIL)\r\n" }),
+		g("fetch-section-parts", "section", false, func(n int) string { return "* 1 FETCH (BODY[" + strings.TrimSuffix(rep("1.", n), ".") + "] \"x\")\r\n" }),
 		g("fetch-header-fields", "header-list", false, func(n int) string {
 			return "* 1 FETCH (BODY[HEADER.FIELDS (" + strings.TrimSuffix(rep("A ", n), " ") + ")] \"x\")\r\n"
 		}),
